@@ -360,6 +360,9 @@ def Res.andThen (r : Res) (k : St → Res) : Res :=
   | some _ => r
   | none => k r.st
 
+/-- A step that succeeded is followed by the error `e`; its own error wins. -/
+def Res.orErr (r : Res) (e : Err) : Res := ⟨r.st, some (r.err.getD e)⟩
+
 def St.write (s : St) (p : Bytes) : Res :=
   match s.w.write p with
   | (w, true) => ok { s with w := w }
@@ -383,7 +386,13 @@ def tplWrites (s : St) (pre t suf : Bytes) (noesc : Bool) : Res :=
     otherwise the buffer is copied out with one write. -/
 def inclFinish (s : St) (r : Res) : Res :=
   match r.err with
-  | some e => ⟨{ s with c := r.st.c }, some e⟩
+  | some e =>
+    -- what the included template wrote before it ended by break / continue or by an error is output as well
+    -- (repair: it used to be dropped, unlike the same source standing in place of the tag); a failing copy
+    -- reports the writer's error
+    -- (`outOfFuel` is the model's own error, not the engine's: it is passed on as it is and never masked)
+    if r.st.w.out.isEmpty || e == .outOfFuel then ⟨{ s with c := r.st.c }, some e⟩
+    else (({ s with c := r.st.c } : St).write r.st.w.out).orErr e
   | none => ({ s with c := r.st.c } : St).write r.st.w.out
 
 /-- A `case` node's specification, if the node is one. -/
@@ -417,6 +426,9 @@ def runMods (c : Ctx) (raw : Val) : List Mod → Val × Ctx
     | none => (raw, { c1 with err := some .unsupported })
     | some (.error e, c2) => (raw, { c2 with err := some e })
     | some (.ok v, c2) => runMods { c2 with err := none } v rest
+
+/-- `ctx.Err = nil`. -/
+def Ctx.clrErr (c : Ctx) : Ctx := { c with err := none }
 
 /-- Helper arguments (`condHlpArg` / `caseHlpArg`): static → the literal bytes, else `get`. -/
 def collectHlpArgs (c : Ctx) : List Arg → List Val × Ctx
@@ -551,7 +563,9 @@ inductive CondOut
     that runs (dyntpl.go: `r, err = t.nodeCmp(...)`). -/
 def evalCond (c : Ctx) (cd : CondSpec) : Ctx × CondOut :=
   if !cd.hlp.isEmpty && cd.lc == 0 then
-    let (args, c1) := collectHlpArgs c cd.hlpArg
+    -- the helper's verdict depends on its arguments only: `ctx.Err` is cleared first (repair — an error left by an
+    -- earlier node used to abort a helper condition whose arguments are all literals)
+    let (args, c1) := collectHlpArgs c.clrErr cd.hlpArg
     match applyCondFn cd.hlp args with
     | none => (c1, .stop .condHlpNotFound)
     | some b => match c1.err with
@@ -607,7 +621,7 @@ def evalCase (c : Ctx) (arg : Bytes) (k : CaseSpec) : Ctx × CondOut :=
         | none => (c1, .stop .unknownType)
         | some t => let (b, c2) := c1.cmp arg .eq t; (c2, .branch b none)
   else if !k.hlp.isEmpty then
-    let (args, c1) := collectHlpArgs c k.hlpArg
+    let (args, c1) := collectHlpArgs c.clrErr k.hlpArg   -- (repair, as in `evalCond`)
     match applyCondFn k.hlp args with
     | none => (c1, .stop .condHlpNotFound)
     | some b => match c1.err with
@@ -666,7 +680,9 @@ def iterAfterBody (rb : Res) : IterOut :=
     | some e => if isSentinel e then none else some e
     | none => none
   match abortErr with
-  | some e => .abort { rb.st with c := { rb.st.c with err := some e } }
+  -- the loop ends here, so it takes its share of a pending depth with it (repair: `lazybreak` followed by `exit`
+  -- in an included template used to leave the depth to the loops of the including template)
+  | some e => .abort { rb.st with c := { rb.st.c with err := some e, brkD := rb.st.c.brkD - 1 } }
   | none =>
     if rb.st.c.brkD > 0 then .stop { rb.st with c := { rb.st.c with brkD := rb.st.c.brkD - 1 } }
     else .next rb.st
